@@ -46,6 +46,15 @@ pub fn check_project(case: &ProjCase, st: &mut Stats) -> Result<bool, String> {
         let actual = v.ast.as_ref().ok_or_else(|| format!("file {id}: no tree for a well-formed document"))?;
         let model = &case.project.files[i];
         let pkg = model.package.join(".");
+        if case.damaged[i].is_some() {
+            // carries an injected malformed member: only its key / item name are compared
+            let key = model.key();
+            let got_key = imp::guarded(|| actual.get_key())?;
+            if got_key != key {
+                return Err(format!("file {id}: Aidl::get_key() = {got_key:?}, registered key is {key:?}"));
+            }
+            continue;
+        }
         // the tree must mirror the model, so that names below are the source identifiers
         crate::cmp::compare_structure(
             &d.expected,
@@ -94,6 +103,9 @@ pub fn check_project(case: &ProjCase, st: &mut Stats) -> Result<bool, String> {
     // references: every type symbol, in any file, that the reference resolves to a project item
     for (i, _) in case.docs.iter().enumerate() {
         let id = &case.ids[i];
+        if case.damaged[i].is_some() {
+            continue;
+        }
         let Ok(r) = case.reference(i) else {
             st.discard("dont-care corner");
             continue;
